@@ -86,6 +86,14 @@ def spaces(tier, seed):
     sp.append(Product("apostrophe-like-marks-in-running-text", {"lang": LANGS, "mark": ["'", "\u2019", "\u00b4", "`", "\u02b9", "\u2032"], "tpl": range(4), "sel": ["lang", "auto"],
                                                                 "adl": [True], "base": [True]},
                       note="an elided word written with an apostrophe look-alike (it´s, l`an ...) next to a date, with a detached separator after it"))
+    sp.append(Product("simplification-phrases", {"lang": LANGS, "sw": range(12), "ctx": range(4), "sel": ["lang"], "adl": [True], "base": [True, False]},
+                      note="every literal phrase the language's simplification rules rewrite (to a number, a clock time, another phrase - often with another number "
+                           "of tokens), alone and next to other tokens: the code that re-aligns rewritten and original tokens is what cuts the substrings"))
+    sp.append(Product("several-relative-hits-without-a-base", {"lang": LANGS, "r1": range(3), "r2": range(3), "join": [" ", ". ", ", "], "tz": ["", " EST", " UTC+05:30"],
+                                                               "sel": ["lang"], "adl": [True], "base": [False]},
+                      note="two relative phrases in one text and no RELATIVE_BASE (each earlier hit is itself relative), optionally followed by a timezone"))
+    sp.append(Product("simplification-and-relative-autodetect", {"lang": LANGS, "sw": range(3), "ctx": [1], "r1": [0], "r2": [1], "join": [". "], "tz": [" EST"], "kind": ["simp", "rel"],
+                                                                 "sel": ["auto"], "adl": [True], "base": [False]}))
     sp.append(Product("glued-punctuation", {"lang": LANGS, "i": range(6), "j": range(6), "glue": [",", "'", ".", "-", ":", "/", ";", ")(", "\u2019", ",,"],
                                             "sel": ["lang"], "adl": [True], "base": [True]},
                       note="two tokens joined by a punctuation mark without spaces"))
@@ -105,6 +113,25 @@ def text_of(sub, c):
     if sub == "chained-reference-dates":
         t2 = c["t2"].replace("{month}", core8[0]).replace("{weekday}", core8[1] if len(core8) > 1 else "12").replace("{rel}", rel[0] if rel else "12")
         return c["t1"] + c["join"] + t2
+    if sub == "simplification-and-relative-autodetect":
+        sub = "simplification-phrases" if c["kind"] == "simp" else "several-relative-hits-without-a-base"
+    if sub == "simplification-phrases":
+        import re as _re
+        info = vocab.locale_info(c["lang"])
+        ws = []
+        for d_ in info.get("simplifications") or []:
+            for k_ in d_:
+                if not _re.search(r"[\\()\[\]?*+|{}^$.]", k_):
+                    ws.append(k_)
+        if c["sw"] >= len(ws):
+            return None
+        w = ws[c["sw"]]
+        j = joiner or " "
+        return [w, w + j + core8[0] + j + "2014", fill[0] + j + w + j + (rel[0] if rel else "12") + ".", "12" + j + w + j + w + j + "2014"][c["ctx"]]
+    if sub == "several-relative-hits-without-a-base":
+        if c["r1"] >= len(rel) or c["r2"] >= len(rel):
+            return None
+        return rel[c["r1"]] + c["join"] + rel[c["r2"]] + c["tz"]
     if sub == "apostrophe-like-marks-in-running-text":
         j = joiner or " "
         m = c["mark"]
